@@ -592,6 +592,10 @@ func (c *Ctx) panicSites(fd *ast.FuncDecl) []panicSite {
 				arg := ""
 				if len(x.Args) > 0 {
 					arg = exprString(x.Args[0])
+					if f.Name() == "MustCreateRef" {
+						// describe the argument by where it comes from, not by how it is spelled
+						arg = c.refTextProvenance(fd, x.Args[0], 0)
+					}
 				}
 				out = append(out, panicSite{fn, "must", f.Name() + "(" + arg + ")", x.Pos()})
 			}
@@ -912,10 +916,10 @@ func (c *Ctx) mapStoreSafeAt(fd *ast.FuncDecl, as ast.Node, ix *ast.IndexExpr) b
 // auditedPanicSites: panic-capable constructs reachable from the expand/resolve entry points
 // that were read and accepted, one reason each. Keyed by function/kind/detail, never by line.
 var auditedPanicSites = map[string]string{
-	"normalizeURI/must/MustCreateRef(refURL.String())":           "argument is the String() of a URL that url.Parse already accepted (or the repaired empty URL): re-parsing cannot fail",
-	"normalizeRef/must/MustCreateRef(normalizeURI(ref.String(), relativeBase))": "normalizeURI returns the String() of a parsed URL",
-	"rebase/must/MustCreateRef(newBase.String())":                "newBase is assembled from components of parsed URLs",
-	"schemaLoader.transitiveResolver/must/MustCreateRef(basePath)": "basePath is a base location already normalised by normalizeBase (a printed URL)",
+	"normalizeURI/must/MustCreateRef(<printed URL>)":               "argument is the String() of a URL that url.Parse already accepted (or the repaired empty URL): re-parsing cannot fail",
+	"normalizeRef/must/MustCreateRef(<normalizeURI result>)":       "normalizeURI returns the String() of a parsed URL",
+	"rebase/must/MustCreateRef(<printed URL>)":                     "newBase is assembled from components of parsed URLs",
+	"schemaLoader.transitiveResolver/must/MustCreateRef(<base path parameter>)": "basePath is a base location already normalised by normalizeBase (a printed URL)",
 	"MustLoadJSONSchemaDraft04/panic/":                           "embedded meta-schema; decoding a constant asset that the test-suite loads",
 	"MustLoadSwagger20Schema/panic/":                             "embedded meta-schema; decoding a constant asset that the test-suite loads",
 	"defaultResolutionCache/must/MustLoadSwagger20Schema()":      "see MustLoadSwagger20Schema",
@@ -1004,4 +1008,46 @@ func (c *Ctx) ownedByMustAPI(self *types.Func) bool {
 		}
 	}
 	return ok && n > 0
+}
+
+// refTextProvenance classifies the text handed to MustCreateRef: the String() of a net/url URL, the result of
+// normalizeURI, a base-path parameter of the expander family, or (otherwise) the expression as written.
+func (c *Ctx) refTextProvenance(fd *ast.FuncDecl, e ast.Expr, depth int) string {
+	e = unparen(e)
+	if depth > 3 {
+		return exprString(e)
+	}
+	switch x := e.(type) {
+	case *ast.CallExpr:
+		if c.isSpecFunc(x, "normalizeURI") {
+			return "<normalizeURI result>"
+		}
+		if se, ok := unparen(x.Fun).(*ast.SelectorExpr); ok && se.Sel.Name == "String" && len(x.Args) == 0 {
+			if t := c.typeOf(se.X); t != nil && strings.HasSuffix(types.TypeString(derefType(t), nil), "net/url.URL") {
+				return "<printed URL>"
+			}
+		}
+	case *ast.Ident:
+		o := c.objOf(x)
+		ds := c.localDefs(fd)[o]
+		if len(ds) == 0 {
+			if c.paramIndex(fd, o) >= 0 && isStringType(o.Type()) {
+				return "<base path parameter>"
+			}
+			return exprString(e)
+		}
+		cls := ""
+		for _, d := range ds {
+			if d == nil {
+				return exprString(e)
+			}
+			k := c.refTextProvenance(fd, d, depth+1)
+			if cls != "" && cls != k {
+				return exprString(e)
+			}
+			cls = k
+		}
+		return cls
+	}
+	return exprString(e)
 }
